@@ -1,12 +1,12 @@
 ------------------------------ MODULE J_PyTypes ------------------------------
 (* Judge for C15: check_type(value, annotation) accepted  <=>  Conforms(value, annotation); never raises. *)
-EXTENDS PyTypes, PyJson, TLC, Json, IOUtils
+EXTENDS PyTypes, TLC, Json, IOUtils, SequencesExt
 VARIABLE dummy
 Events == ndJsonDeserialize(IOEnv.VERIF_EVENTS)
 N == Len(Events)
 Failing(e) ==
   IF e.res \notin {"accept", "reject"} THEN {"raised"}
-  ELSE IF (e.res = "accept") # Conforms(FromJson(e.v), e.T) THEN {IF e.res = "accept" THEN "accepted_nonconforming" ELSE "rejected_conforming"} ELSE {}
+  ELSE IF (e.res = "accept") # Conforms(e.v, e.T) THEN {IF e.res = "accept" THEN "accepted_nonconforming" ELSE "rejected_conforming"} ELSE {}
 F == [i \in 1..N |-> Failing(Events[i])]
 BadIdx == {i \in 1..N : F[i] # {}}
 Bad == UNION {{[i |-> i, c |-> c, d |-> ""] : c \in F[i]} : i \in BadIdx}
